@@ -108,8 +108,48 @@ func main() {
 		ov.Replace[filepath.Join(*repo, rel)] = out
 	}
 
-	// 1. log.go: os.Exit(x) -> verifExit(x)
-	rewrite("pkg/libs/log/log.go", func(fset *token.FileSet, file *ast.File) bool {
+	// non-test Go files of a repo package directory (working tree plus files a mutant adds)
+	pkgFiles := func(dir string) []string {
+		seen := map[string]bool{}
+		var out []string
+		for _, root := range []string{*repo, *mutant} {
+			if root == "" {
+				continue
+			}
+			ents, _ := ioutil.ReadDir(filepath.Join(root, dir))
+			for _, e := range ents {
+				n := e.Name()
+				if e.IsDir() || !strings.HasSuffix(n, ".go") || strings.HasSuffix(n, "_test.go") || strings.HasPrefix(n, "zz_verif_") || seen[n] {
+					continue
+				}
+				seen[n] = true
+				out = append(out, filepath.Join(dir, n))
+			}
+		}
+		sort.Strings(out)
+		return out
+	}
+	// a rule applied to every file of a package: files without the seam are left alone (and not
+	// reported), the package as a whole must contain it at least once
+	rewriteAll := func(dir string, f func(fset *token.FileSet, file *ast.File) bool, extra string) {
+		before := len(seams)
+		hits := 0
+		for _, rel := range pkgFiles(dir) {
+			n0 := len(seams)
+			rewrite(rel, f, extra)
+			if len(seams) == n0 {
+				hits++
+			} else if len(seams) == n0+1 && strings.HasPrefix(seams[n0], "noseam:") {
+				seams = seams[:n0]
+			}
+		}
+		if hits == 0 {
+			seams = append(seams[:before], "noseam:"+dir)
+		}
+	}
+
+	// 1. package log: os.Exit(x) -> verifExit(x)
+	rewriteAll("pkg/libs/log", func(fset *token.FileSet, file *ast.File) bool {
 		n := 0
 		ast.Inspect(file, func(nd ast.Node) bool {
 			if call, ok := nd.(*ast.CallExpr); ok {
@@ -133,7 +173,7 @@ func verifExit(code int) { hook.Exit(code) }
 
 	// 2. utils.go: X.Dial("tcp", target) (net.Dial, d.Dial) -> verifDial("tcp", target);
 	//    redigo.DialTimeout("tcp", addr, ...) -> verifRedigoDial("tcp", addr, ...)
-	rewrite("redis-shake/common/utils.go", func(fset *token.FileSet, file *ast.File) bool {
+	rewriteAll("redis-shake/common", func(fset *token.FileSet, file *ast.File) bool {
 		n := 0
 		ast.Inspect(file, func(nd ast.Node) bool {
 			if call, ok := nd.(*ast.CallExpr); ok {
@@ -142,8 +182,14 @@ func verifExit(code int) { hook.Exit(code) }
 					if id == nil {
 						return true
 					}
-					if sel.Sel.Name == "Dial" && len(call.Args) == 2 && (id.Name == "net" || id.Name == "d") {
+					// net.Dial(network, addr) and <any dialer variable>.Dial(network, addr); the tls and
+					// cluster-client dials have other arities and are left alone
+					if sel.Sel.Name == "Dial" && len(call.Args) == 2 && id.Name != "tls" && id.Name != "redigo" {
 						call.Fun = ast.NewIdent("verifDial")
+						n++
+					} else if sel.Sel.Name == "DialTimeout" && id.Name == "net" && len(call.Args) == 3 {
+						call.Fun = ast.NewIdent("verifDial")
+						call.Args = call.Args[:2]
 						n++
 					} else if sel.Sel.Name == "DialTimeout" && id.Name == "redigo" && len(call.Args) == 5 {
 						call.Fun = ast.NewIdent("verifRedigoDial")
@@ -184,8 +230,8 @@ func verifRedigoDial(network, addr string, a, b, c time.Duration) (redigo.Conn, 
 `)
 
 	// 3. pipe.go / backlog.go: import "sync" -> vsync
-	for _, rel := range []string{"pkg/libs/io/pipe/pipe.go", "pkg/libs/io/backlog/backlog.go"} {
-		rewrite(rel, func(fset *token.FileSet, file *ast.File) bool {
+	for _, dir := range []string{"pkg/libs/io/pipe", "pkg/libs/io/backlog"} {
+		rewriteAll(dir, func(fset *token.FileSet, file *ast.File) bool {
 			n := 0
 			for _, imp := range file.Imports {
 				if imp.Path.Value == `"sync"` {
